@@ -69,6 +69,12 @@ def one(profile, seed, how="flush"):
             model_walk = K.walk_file(fs.model)
             if how == "flush":
                 fs.real.flush()
+            elif how == "close_with_reader":
+                # another File object of this process still has the path open when the writer closes
+                import nixio as _nix
+                reader = _nix.File.open(fs.path, _nix.FileMode.ReadOnly)
+                len(reader.blocks)
+                fs.real.close()
             else:
                 fs.real.close()
             with os.fdopen(wr, "wb") as f:
@@ -123,7 +129,7 @@ def crosscheck(profile, base_seed, n):
     problems = []
     for i in range(n):
         seed = E.seed_for(base_seed, profile.prop + ":real", i)
-        res = one(profile, seed, "flush" if i % 4 else "close")
+        res = one(profile, seed, ("close", "flush", "flush", "close_with_reader")[i % 4])
         if res is None:
             done += 1
         elif "skipped" in res:
